@@ -41,7 +41,7 @@ def run(ctx):
             rng.shuffle(ex)
             opts = {k_: v_ for k_, v_ in opts.items() if k_ in ('dialect', 'tag')}
             ctx.bump('overlapping_expressions')
-        form = rng.choice(['list', 'list', 'dict', 'bytes-list', 'bytes-dict', 'extract-list'])
+        form = rng.choice(['list', 'list', 'dict', 'bytes-list', 'bytes-dict', 'extract-list', 'iterator', 'generator'])
         if form in ('dict', 'bytes-dict'):
             cnt = {}
             for s in ex:
@@ -79,6 +79,9 @@ def run(ctx):
                     barg = ({s_.encode(enc, 'surrogatepass'): n_ for s_, n_ in arg.items()} if isinstance(arg, dict)
                             else [s_.encode(enc, 'surrogatepass') for s_ in arg])
                     x = rx_.extract(barg, encoding=enc, as_object=True, **dict(opts, **kw))
+                elif form in ('iterator', 'generator'):
+                    # examples supplied as a one-shot iterable (a generator, the lines of an open file ...)
+                    x = Extractor(iter(list(arg)) if form == 'iterator' else (s_ for s_ in list(arg)), **dict(opts, **kw))
                 elif form == 'extract-list':
                     import tdda.rexpy.rexpy as rx_
                     x = rx_.extract(arg, as_object=True, **dict(opts, **kw))
